@@ -15,7 +15,7 @@ import copy
 import dataclasses
 import random
 import re
-from typing import Dict, List, NamedTuple, Optional, TypedDict
+from typing import Dict, List, NamedTuple, Optional, TypedDict, Union
 
 import attrs
 
@@ -107,8 +107,38 @@ class NO2(NO):
     extra: int = 5
 
 
+# ---- family 4: a union of classes reachable from one of its members (List[Union[UNode, ULeaf]]), with hook factories that rename every
+# attribute to camelCase: the default disambiguator reads the renames off the members' hooks, also for the member being generated
+@attrs.define
+class ULeaf:
+    leaf_val: int = 0
+    z: RMk = attrs.Factory(RMk)
+
+
+@attrs.define
+class UNode:
+    node_id: int
+    kids: List[Union["UNode", ULeaf]] = attrs.Factory(list)
+    z: RMk = attrs.Factory(RMk)
+
+
+def _camel(s):
+    a, *rest = s.split("_")
+    return a + "".join(x.capitalize() for x in rest)
+
+
+def setup_camel(conv):
+    from cattrs.gen import make_dict_structure_fn, make_dict_unstructure_fn, override
+    mine = (UNode, ULeaf)
+    conv.register_structure_hook(RMk, lambda v_, _t: RMk())
+    conv.register_structure_hook_factory(lambda t: t in mine, lambda t, c: make_dict_structure_fn(
+        t, c, **{a.name: override(rename=_camel(a.name)) for a in attrs.fields(t)}))
+    conv.register_unstructure_hook_factory(lambda t: t in mine, lambda t, c: make_dict_unstructure_fn(
+        t, c, **{a.name: override(rename=_camel(a.name)) for a in attrs.fields(t)}))
+
+
 _G = dict(globals())
-for _c in (RA, RB, RA2, RB2, DQ, DQ2, NO, NO2):
+for _c in (RA, RB, RA2, RB2, DQ, DQ2, NO, NO2, UNode):
     attrs.resolve_types(_c, _G)
 
 
@@ -130,7 +160,13 @@ def families():
           "entries": [NO, TN, NNT, NO2, List[TN], Optional[NNT]],
           "warm_values": {NO: NO(), TN: {"owner": NO(), "n": 0}, NNT: NNT(None, 0), NO2: NO2(), List[TN]: [], Optional[NNT]: NNT(None, 0)},
           "probes": [(NO, o_val), (TN, {"owner": o_val, "n": 9}), (NNT, NNT(o_val, 3)), (List[TN], [{"owner": o_val, "n": 9}]), (Optional[NNT], NNT(o_val, 3)), (NO2, NO2(items=o_val.items))]}
-    return [f1, f2, f3]
+    tree = UNode(1, [ULeaf(2), UNode(3, [ULeaf(4), UNode(5)])])
+    U = Union[UNode, ULeaf]
+    f4 = {"name": "union inside a cycle, camelCase hook factories", "setup": setup_camel, "must_round_trip": True,
+          "entries": [UNode, ULeaf, U, List[U]],
+          "warm_values": {UNode: UNode(0), ULeaf: ULeaf(1), U: ULeaf(1), List[U]: [ULeaf(1)]},
+          "probes": [(UNode, tree), (U, tree), (U, ULeaf(7)), (List[U], [tree, ULeaf(8)]), (ULeaf, ULeaf(9))]}
+    return [f1, f2, f3, f4]
 
 
 def outcome(f):
@@ -154,7 +190,10 @@ def probe(conv, fam, back_conv=None):
             raise
         except BaseException:      # noqa
             continue
-        out.append((f"structure({u!r}, {T})", outcome(lambda: conv.structure(copy.deepcopy(u), T))))
+        back = outcome(lambda: conv.structure(copy.deepcopy(u), T))
+        out.append((f"structure({u!r}, {T})", back))
+        if fam.get("must_round_trip"):
+            out.append((f"round trip of {x!r} as {T}", ("ok", "True") if back == ("ok", repr(x)) else ("err", f"got {back}")))
     return out
 
 
@@ -208,6 +247,9 @@ def check_recwarm(v: Verdict, prop: str, n_cases: int):
         fam = fams[fi]
         kw = options(rng)
         warmed, fresh = Converter(**kw), Converter(**kw)
+        if fam.get("setup"):
+            fam["setup"](warmed)
+            fam["setup"](fresh)
         for c in calls:
             apply_warm(warmed, fam, c)
         hist["cases"] += 1
@@ -217,6 +259,11 @@ def check_recwarm(v: Verdict, prop: str, n_cases: int):
         v.count(repr(("recwarm", fam["name"], sorted(kw.items()), steps)), True)
         pa, pb = probe(warmed, fam), probe(fresh, fam)
         hist["probes"] += len(pa)
+        for (what, xa) in pa:
+            if what.startswith("round trip of") and xa[0] != "ok":
+                v.violation("a value does not come back from its unstructured form (union inside a reference cycle, renamed attributes)",
+                            {"lane": "RECWARM/" + prop, "family": fam["name"], "options": kw, "warm_up_calls": steps, "probe": what[:400], "observed": xa[1][:400]})
+                break
         for (what, xa), (_w, xb) in zip(pa, pb):
             if xa != xb:
                 case = {"lane": "RECWARM/" + prop, "family": fam["name"], "options": kw, "warm_up_calls": steps, "probe": what[:400],
@@ -273,6 +320,9 @@ def check_recwarm_threads(v: Verdict, n_cases: int):
         fam = fams[fi]
         kw = options(rng)
         shared, seq = Converter(**kw), Converter(**kw)
+        if fam.get("setup"):
+            fam["setup"](shared)
+            fam["setup"](seq)
         pk = Parker(shared, k)
         seq.register_unstructure_hook_factory(lambda t: t is RMk, lambda t: (lambda v_: "mk"))
         errs = [None, None]
@@ -307,6 +357,11 @@ def check_recwarm_threads(v: Verdict, n_cases: int):
             continue
         pa, pb = probe(shared, fam), probe(seq, fam)
         hist["probes"] += len(pa)
+        for (what, xa) in pa:
+            if what.startswith("round trip of") and xa[0] != "ok":
+                v.violation("after a concurrent first use a value does not come back from its unstructured form (union inside a reference cycle, renamed attributes)",
+                            {**desc, "probe": what[:400], "observed": xa[1][:400]})
+                break
         for (what, xa), (_w, xb) in zip(pa, pb):
             if xa != xb:
                 case = {**desc, "probe": what[:400], "shared_converter_after_the_schedule": xa, "sequential": xb}
